@@ -2,6 +2,7 @@ package mon
 
 import (
 	"fmt"
+	"math"
 	"reflect"
 	"runtime/debug"
 	"strconv"
@@ -287,7 +288,13 @@ func c16Limits(x *core.Ctx, g, text string) {
 	}
 	prevOK := false
 	maxL := T + 2
+	limits := make([]int, 0, maxL+6)
 	for L := 0; L <= maxL; L++ {
+		limits = append(limits, L)
+	}
+	// limits at and beyond the 32-bit edge: a limit is a count, not something to squeeze into a narrower integer
+	limits = append(limits, math.MaxInt32-1, math.MaxInt32, math.MaxInt32+1, 1<<32+3, math.MaxInt64)
+	for _, L := range limits {
 		a := c16Parse(g, src, L, true)
 		x.Count("limit_parses")
 		if a.err == nil && a.isNil {
@@ -299,6 +306,14 @@ func c16Limits(x *core.Ctx, g, text string) {
 				x.Violate("exact:zero-not-unlimited:"+what+":"+g, fmt.Sprintf("limit 0 -> %s", errText(a.err)), fmt.Sprintf("unlimited -> %s", errText(u.err)))
 			} else {
 				x.Count("zero_equals_unlimited")
+			}
+		case !judgedT && u.err == nil:
+			// the reference abstains (characters above U+FFFF) and the text parses: T is unknown, but no text has more
+			// tokens than bytes, so a limit beyond its length must behave as no limit
+			if L > len(text) {
+				if ok, what := same(a); !ok {
+					x.Violate("exact:differs-at-or-above-T:"+what+":"+g, fmt.Sprintf("limit %d (> %d bytes) -> %s", L, len(text), errText(a.err)), "unlimited -> "+errText(u.err))
+				}
 			}
 		case !judgedT:
 			// lexically invalid input: every limit must fail as the unlimited parse does
@@ -361,7 +376,7 @@ func c16Limits(x *core.Ctx, g, text string) {
 		}
 	}
 	if x.WantSample() && T >= 6 && len(text) < 300 && judgedT {
-		x.Sample(map[string]interface{}{"grammar": g, "source": text, "reference_token_count": T, "unlimited": errText(u.err), "limits_tried": fmt.Sprintf("0..%d", maxL), "verdict": "exact and monotone; reads <= 2L+8 on every limit failure"})
+		x.Sample(map[string]interface{}{"grammar": g, "source": text, "reference_token_count": T, "unlimited": errText(u.err), "limits_tried": fmt.Sprintf("0..%d, 2^31-2, 2^31-1, 2^31, 2^32+3, 2^63-1", maxL), "verdict": "exact and monotone; reads <= 2L+8 on every limit failure"})
 	}
 }
 
